@@ -84,6 +84,15 @@ RULE["C16"] += "; stage 'history' = any 2-4 operations before the file is writte
 RULE["C17"] += "; every 6th case has an earlier backward run followed by a reload into the same object or by replaced list objects before the examined run"
 RULE["C18"] += "; 12 % of the logs come from two calls with different absence lists (pause + resume, run + appended run), 15 % of the projects were read from a file before the edits"
 RULE["C20"] += "; every third case configured the SAME task before from an earlier result that stood at the same path"
+for _p in ("C01", "C02", "C03", "C04", "C06", "C07", "C13", "C14"):
+    RULE[_p] += "; the JSON-resume variant also duplicates the paused project with copy.deepcopy / a pickle round trip (35 %) and resumes the copy"
+RULE["C08"] += "; operations also: simulate(initialize_state_info=False, initialize_log_info=True), reload into the same object, read-only 'queries' (Gantt data and state queries of every object)"
+RULE["C09"] += "; a deepcopy and a pickle round trip of every freshly built project are simulated while the template is alive and compared with the reference"
+RULE["C15"] += "; for every second pause point the paused project is duplicated (deepcopy / pickle) and the copy is resumed"
+RULE["C16"] += "; 8 % of the stage cases start inside the hour a daylight-saving switch skips / repeats and run under TZ=CET-1CEST"
+RULE["C17"] += "; a third of the injected faults derive from BaseException, not from Exception"
+RULE["C18"] += "; every fifth case runs its edits with warnings turned into errors"
+RULE["C19"] += "; a fifth of the cases run under a time zone with daylight saving (TZ=CET-1CEST,M3.5.0,M10.5.0/3), 30 % of the chart starts lie around a switch"
 _SCALE = ("; 5-8 % of the cases are models BEYOND the usual sizes (gen_scale: runs of 100-1500 steps with absence blocks of up to 140 consecutive steps, "
           "fan-in of up to 299, 33-70 tasks on one component, finish-gated chains of 11-40 tasks, teams of 100 workers, 10-14 teams with numeric IDs, "
           "17-26 components in one workplace)")
@@ -111,12 +120,12 @@ FLOORS = {
     "C11": [("C11.sort_calls", 20000, 500000), ("C11.sort_calls_with_distinct_keys", 5000, 100000), ("C11.contention_situations", 50, 1500), ("C11.contention_pairs", 50, 1500), ("C11.resort_after_change_batches", 2000, 50000)],
     "C12": [("C12.updates", 10000, 300000), ("C12.updates_after_cpl_change", 500, 15000), ("C12.structure_edits.newtask", 100, 3000), ("C12.updated_phase_checks", 5000, 150000)],
     "C08": [("C08.length_checks", 100000, 3000000), ("C08.entry_checks", 50000, 1500000), ("C08.ops", 1500, 50000)],
-    "C09": [("C09.comparisons", 2000, 100000), ("C09.distinct_set_orders", 800, 40000), ("C09.fresh_process_runs", 60, 1500), ("C09.edit_and_resimulate_runs", 100, 3000)],
+    "C09": [("C09.comparisons", 2000, 100000), ("C09.distinct_set_orders", 800, 40000), ("C09.fresh_process_runs", 60, 1500), ("C09.edit_and_resimulate_runs", 100, 3000), ("C09.copy_runs", 200, 6000)],
     "C10": [("C10.absence_task_checks", 5000, 150000), ("C10.equivalence_comparisons", 300, 10000), ("C10.individual_absence_checks", 50, 1500), ("C10.equivalence_paused_and_resumed", 40, 1000), ("C10.backward_runs", 50, 1500)],
     "C18": [("C18.edits", 1500, 50000), ("C18.log_delta_checks", 50000, 1500000), ("C18.roundtrip_comparisons", 150, 5000)],
     "C15": [("C15.memory_resumes", 1000, 60000), ("C15.json_resumes", 200, 10000), ("C15.pauses_inside_run_with_working_task", 200, 20000)],
     "C16": [("C16.roundtrip_comparisons", 300, 8000), ("C16.reference_checks", 10000, 300000), ("C16.resimulations", 50, 1500), ("C16.param_observed_relevant", 15, 400), ("C16.second_reads_of_same_file", 200, 6000), ("C16.second_writes", 200, 6000)],
-    "C17": [("C17.faults_raised_and_propagated", 1000, 100000), ("C17.structure_checks", 1000, 100000), ("C17.forward_comparisons", 1000, 100000), ("C17.fs_order_checks", 150, 3000), ("C17.backward_is_first_run", 150, 3000)],
+    "C17": [("C17.faults_raised_and_propagated", 1000, 100000), ("C17.structure_checks", 1000, 100000), ("C17.forward_comparisons", 1000, 100000), ("C17.fs_order_checks", 150, 3000), ("C17.backward_is_first_run", 150, 3000), ("C17.faults_that_are_not_Exceptions", 100, 10000)],
     "C19": [("C19.encoder_checks", 30000, 1000000), ("C19.query_checks", 3000, 80000), ("C19.row_checks", 1000, 30000), ("C19.date_checks", 1000, 30000), ("C19.exhaustive_chunks", 28, 36), ("C19.encoder_checks_after_in_place_change", 3000, 80000), ("C19.query_rounds_after_in_place_change", 300, 8000)],
     "C20": [("C20.parent_runs", 200, 5000), ("C20.configurations", 300, 8000), ("C20.refusal_checks", 60, 1500), ("C20.result_path_used_again", 100, 3000), ("C20.parents_through_json", 40, 1000)],
     "C06": [("C06.pairs_examined", 1000, 30000), ("C06.none_checks", 1000, 30000)],
